@@ -86,8 +86,21 @@ pub fn run_impl(c: &Case, cap: &mut crate::capture::Capture) -> (String, Vec<Opt
 pub struct Cfg { pub props: Vec<String> }
 impl Cfg { pub fn want(&self, p: &str) -> bool { self.props.iter().any(|x| x == p) } }
 
-pub fn emit(out: &mut Out, cfg: &Cfg, c: &Case) {
-    if !out.begin() { return; }
+pub struct RunInfo { pub id: usize, pub rec: String, pub answers: Vec<Option<String>>, pub outs: Vec<String>, pub substs: Vec<String> }
+
+pub fn emit(out: &mut Out, cfg: &Cfg, c: &Case) { let _ = emit_info(out, cfg, c); }
+
+/// records of one IMPL line: the substitution sets (encoded) of the answers, in order
+pub fn substs_of(rec: &str) -> Vec<String> {
+    let mut v = vec![];
+    for r in rec.split(" ; ") {
+        if r.starts_with("S ") { if let Some(a) = r.find(" A ") { v.push(r[2..a].to_string()); } }
+    }
+    v
+}
+
+pub fn emit_info(out: &mut Out, cfg: &Cfg, c: &Case) -> Option<RunInfo> {
+    if !out.begin() { return None; }
     let id = out.case(&enc_case(c));
     let (rec, answers, outs) = run_impl(c, &mut out.cap);
     out.impl_line(id, &rec);
@@ -107,6 +120,8 @@ pub fn emit(out: &mut Out, cfg: &Cfg, c: &Case) {
         }
         if seen_none { out.oracle(id, "C05", ok, &msg); }
     }
+    let substs = substs_of(&rec);
+    Some(RunInfo{id, rec, answers, outs, substs})
 }
 
 // ------------------------------------------------------------------ program generator
